@@ -4,11 +4,6 @@ EXTENDS LoaderContract, Json, IOUtils
 Obs == ndJsonDeserialize(IOEnv.OBS_FILE)
 VARIABLE l
 \* what the caller saw raised, and which loader threads died of what (the caller is the first thread)
-CallerRaised(o) == {o.results[i].res : i \in DOMAIN o.results} \ {"ok"}
-ThreadsDied(o) == {o.errs[i] : i \in (DOMAIN o.errs) \ {1}} \ {"none"}
-SigOf(o) == <<o.variant, CallerRaised(o), ThreadsDied(o)>>
-Say(tag, prop, clause, o) == PrintT(ToJson(<<tag, prop, clause, o.k, SigOf(o)>>))
-Chk(P, prop, clause, o) == IF P THEN TRUE ELSE Say("VIOL", prop, clause, o)
 \* spec -> code: a behaviour of OdmlLoader (LoaderBeh) replayed as a schedule.  The real code follows it iff it
 \* produces the same sequence of observable events (same thread, same kind of access, same url / thread argument),
 \* stops where the model stops, and ends with the same outcome: which loads returned None, which returned the same
@@ -22,6 +17,16 @@ SameOutcome(o) == /\ o.real_err = o.model_err
                   /\ \A i, j \in DOMAIN o.real_loads : (i \in DOMAIN o.model_loads /\ j \in DOMAIN o.model_loads /\ ~o.real_loads[i].none /\ ~o.real_loads[j].none) =>
                         ((o.real_loads[i].doc = o.real_loads[j].doc) <=> (o.model_loads[i].doc = o.model_loads[j].doc))
                   /\ o.real_cache = o.model_cache
+CallerRaised(o) == {o.results[i].res : i \in DOMAIN o.results} \ {"ok"}
+ThreadsDied(o) == {o.errs[i] : i \in (DOMAIN o.errs) \ {1}} \ {"none"}
+\* the last component tells how the execution relates to what is known: a behaviour of the model replayed into the code either is
+\* followed (the model predicts this outcome) or not; an execution found by the exploration of the real code needed at most one or
+\* more preemptions
+SigOf(o) == <<o.variant, CallerRaised(o), ThreadsDied(o),
+              IF IsBeh(o) THEN (IF Follows(o) /\ SameOutcome(o) THEN "predicted-by-the-model" ELSE "not-predicted-by-the-model")
+              ELSE IF o.preemptions <= 1 THEN "at-most-one-preemption" ELSE "two-or-more-preemptions">>
+Say(tag, prop, clause, o) == PrintT(ToJson(<<tag, prop, clause, o.k, SigOf(o)>>))
+Chk(P, prop, clause, o) == IF P THEN TRUE ELSE Say("VIOL", prop, clause, o)
 Check(i) == LET o == Obs[i] IN
    /\ Chk(NoRaise(o), "C18", "NoCallRaises", o)
    /\ Chk(Transparent(o), "C18", "LoadIsTransparent", o)
